@@ -20,6 +20,11 @@ MUTANTS = {
             ('mux8-scratch', 'logic_sim.py', "                    logic.bp8v_not(self.c[t1], self.c[i2])\n                    logic.bp8v_and(self.c[t0], self.c[i0], self.c[t1])", "                    logic.bp8v_not(self.c[t0], self.c[i2])\n                    logic.bp8v_and(self.c[t0], self.c[i0], self.c[t0])")],
     'C12': [('mv-xor-activity', 'logic.py', "        np.bitwise_or(out, inp & 0b100, out=out)\n    np.putmask(out, any_unknown, UNKNOWN)", "    np.putmask(out, any_unknown, UNKNOWN)"),
             ('mv-not-unassigned', 'logic.py', "    np.putmask(out, (inp == UNKNOWN), UNKNOWN)  # restore UNKNOWN", "    pass")],
+    'C16': [('cb2-copy', 'logic_sim.py', "                    if o0_line < len(self.circuit.lines): inject_cb(self.circuit.lines[o0_line], self.c[o0])", "                    if o0_line < len(self.circuit.lines): inject_cb(self.circuit.lines[o0_line], self.c[o0].copy())"),
+            ('cb2-before-eval', 'logic_sim.py', "                    if op == sim.BUF1: self.c[o0]=self.c[i0]\n                    elif op == sim.INV1: self.c[o0] = ~self.c[i0]\n                    elif op == sim.AND2: self.c[o0] = self.c[i0] & self.c[i1]\n", "                    if op == sim.BUF1: self.c[o0]=self.c[i0]\n                    elif op == sim.INV1: self.c[o0] = ~self.c[i0]\n                    elif op == sim.AND2: self.c[o0] = self.c[i1] & self.c[i1]\n")],
+    'C19': [('oai211-grouping', 'techlib.py', "ZN=OAI211(C1,C2,A,B)", "ZN=OAI211(A,C2,C1,B)"),
+            ('mux41-select', 'techlib.py', "A=MUX21(A1,A2,S0) B=MUX21(A3,A4,S0) Y=MUX21(A,B,S1)", "A=MUX21(A1,A2,S1) B=MUX21(A3,A4,S1) Y=MUX21(A,B,S0)"),
+            ('out-index', 'techlib.py', "                    pin_dict[n.name] = (o_idx, True)\n                    o_idx += 1", "                    pin_dict[n.name] = (o_idx, True)")],
 }
 
 
